@@ -490,6 +490,10 @@ fn apply<T: ArrayOrd>(
         // Expand the physical-length result back to logical length.
         // Find the non-scalar side that needs expansion (at most one).
         let side = if l_s.is_none() { l_info } else { r_info };
+        if side.is_scalar {
+            // Both sides are scalar: the single-bit result needs no expansion.
+            return Some(buffer);
+        }
         let buffer = match side.dict {
             Some(d) => take_bits(d, buffer),
             None => buffer,
